@@ -66,7 +66,7 @@ REQUIRED_HITS = [
     'U2.checked_pass_deleting_with_own_present', 'U3.deleted_blob_class_checked', 'U3.survivor_checked',
     'U4.demanded.content.limit_nonzero', 'U4.demanded.network.limit_nonzero', 'U4.demanded.network.limit_zero',
     'U5.checked.content', 'U5.checked.network', 'U5.goal_hit_exactly_with_whole_MB_blobs_left', 'U6.checked',
-    'remount.with_own_blobs', 'U2.checked_against_ownership_recorded_before_restart', 'in.own', 'in.downloaded', 'in.network', 'in.all_three_classes', 'in.stream_without_file_row', 'in.streaming_only_file_row',
+    'U2.checked_against_declared_ownership', 'remount.with_own_blobs', 'U2.checked_against_ownership_recorded_before_restart', 'in.own', 'in.downloaded', 'in.network', 'in.all_three_classes', 'in.stream_without_file_row', 'in.streaming_only_file_row',
     'in.pending_row', 'in.loaded_in_manager', 'in.real_publish', 'in.ownership_flip', 'in.size.lt_1MiB', 'in.size.eq_1MiB',
     'in.size.1MiB_pm1', 'in.size.eq_2MiB', 'in.age_ties', 'in.empty_store', 'repeat.pass_2plus', 'repeat.same_limits',
 ] + [f'limit.{w}.{c}' for w in ('content', 'network') for c in ('zero', 'far_below', 'minus1', 'equal', 'plus1', 'far_above')]
@@ -282,6 +282,8 @@ def sparse(env, h, n):
 async def add_net_blob(env, b):
     h = H(b['id'])
     env.labels[h] = b['id']
+    if b.get('mine', 0):
+        env.published.add(h)
     row = (h, b['n'], b['t'], b.get('mine', 0))
     if b['st'] != 'f':
         await env.storage.add_blobs(row, finished=False)
@@ -309,11 +311,15 @@ async def add_real_stream(env, s):
     ivs = (bytes([i % 256]) * 16 for i in itertools.count(1))
     desc = await StreamDescriptor.create_stream(env.loop, env.blob_dir, path, key=hashlib.sha256(s['id'].encode()).digest()[:16], iv_generator=ivs,
                                                 blob_completed_callback=cb)
+    # exactly StreamManager.create: the stream is stored right away, while the blob_completed tasks of the blobs may still be queued
+    # (which row is written first decides whose is_mine sticks; seeded break C19-F lost the flag of the descriptor blob on that path)
+    await env.storage.store_stream(env.bm.get_blob(desc.sd_hash, is_mine=True), desc)
+    await env.storage.save_published_file(desc.stream_hash, os.path.basename(path), os.path.dirname(path), 0)
     for _ in range(3):
         await asyncio.sleep(0)
     await asyncio.gather(*tasks)
-    await env.storage.store_stream(env.bm.get_blob(desc.sd_hash, is_mine=True), desc)
-    await env.storage.save_published_file(desc.stream_hash, os.path.basename(path), os.path.dirname(path), 0)
+    env.published.update([desc.sd_hash] + [b.blob_hash for b in desc.blobs[:-1]])
+    env.blobs_of[s['id']] = [desc.sd_hash] + [b.blob_hash for b in desc.blobs[:-1]]
     for k, b in enumerate(desc.blobs[:-1]):
         env.labels[b.blob_hash] = f"{s['id']}.{k}"
     env.labels[desc.sd_hash] = s['id'] + '.sd'
@@ -373,6 +379,12 @@ async def add_stream(env, s):
         await save(stream_hash, fn, dd, 0.0, added_on=s['file_t'])
     if s['how'] == 'flip':
         await env.storage.update_blob_ownership(sd_hash, own)
+    mine_hashes = [sd_hash] + [i.blob_hash for i in infos[:-1]]
+    env.blobs_of[sid] = mine_hashes
+    for h in mine_hashes:
+        env.listed_by[h] = env.listed_by.get(h, 0) + 1
+    if own:
+        env.published.update(mine_hashes)
 
 
 def resolve(cls, use, pick_hi, prev):
@@ -484,6 +496,7 @@ async def _run(rec, case, spec):
     os.mkdir(env.dl)
     env.labels, env.sd_of = {}, {}
     env.own_at_restart = None
+    env.published, env.blobs_of, env.listed_by = set(), {}, {}     # what the harness declared as the user's own through the API
     env.conn = None
     storage = None
     try:
@@ -543,6 +556,7 @@ async def _run(rec, case, spec):
                 elif m['kind'] == 'flip' and m['sid'] in env.sd_of:
                     await storage.update_blob_ownership(env.sd_of[m['sid']], bool(m['to']))
                     env.own_at_restart = None       # the user re-declared ownership: the database is the record again
+                    (env.published.update if m['to'] else env.published.difference_update)(env.blobs_of.get(m['sid'], []))
                 elif m['kind'] == 'remount':
                     # ownership as recorded when the daemon stops: nothing a restart does may take it away (seeded break C19-C:
                     # the start-up re-registration replaced the rows, is_mine included)
@@ -600,6 +614,18 @@ async def _run(rec, case, spec):
                 raise RuntimeError(f"hook saw sub-passes {[x['is_net'] for x in records]} for op {p['op']}")
             for x in records:
                 rec.hit('pass.network' if x['is_net'] else 'pass.content')
+                # ownership as the USER declared it (is_mine=True handed to get_blob / store_stream / update_blob_ownership, real publishes),
+                # not as the database column says now; blobs listed by two streams are left to the column
+                declared = {h for h in env.published if env.listed_by.get(h, 0) <= 1}
+                if declared:
+                    rec.hit('U2.checked_against_declared_ownership')
+                    gone = sorted(h for h in x['pre']['blobs'] if h not in x['post']['blobs'] and h in declared)
+                    if gone:
+                        rec.violation('C19/U2/own-blob-deleted/declared-own-through-the-api',
+                                      f'{len(gone)} blob(s) the user published (declared is_mine through the blob manager / storage API) were deleted by a '
+                                      f'{"network" if x["is_net"] else "content"} pass, e.g. {name(gone[0])}; is_mine in the database before the pass: '
+                                      f'{x["pre"]["blobs"][gone[0]][2]}', {'pass_index': pi, 'op': p['op'], 'deleted_own': [name(h) for h in gone][:20],
+                                                                            'spec': spec if len(json.dumps(spec)) < 6000 else 'see case (seeded)'})
                 if env.own_at_restart:
                     rec.hit('U2.checked_against_ownership_recorded_before_restart')
                     gone = sorted(h for h in x['pre']['blobs'] if h not in x['post']['blobs'] and h in env.own_at_restart)
